@@ -20,12 +20,19 @@ def concatenate(fields, target={}, resources=None):
 
     def func(package):
         matcher = ResourceMatcher(resources, package.pkg)
-        # Prepare target resource
-        if 'name' not in target:
-            target['name'] = 'concat'
-        if 'path' not in target:
-            target['path'] = 'data/' + target['name'] + '.csv'
-        target.update(dict(
+        # Prepare target resource (a copy: the argument - or the default - may serve another step)
+        target_ = dict(target)
+        if 'name' not in target_:
+            # the default name, or the next free one
+            taken = set(r['name'] for r in package.pkg.descriptor['resources'] if not matcher.match(r['name']))
+            name, index = 'concat', 1
+            while name in taken:
+                index += 1
+                name = 'concat_{}'.format(index)
+            target_['name'] = name
+        if 'path' not in target_:
+            target_['path'] = 'data/' + target_['name'] + '.csv'
+        target_.update(dict(
             mediatype='text/csv',
             schema=dict(fields=[], primaryKey=[]),
             profile='tabular-data-resource'
@@ -60,17 +67,17 @@ def concatenate(fields, target={}, resources=None):
                     if name not in needed_fields:
                         continue
                     if orig_name in pk:
-                        target['schema']['primaryKey'].append(name)
+                        target_['schema']['primaryKey'].append(name)
                     # a copy: the source field may be shared with resources that are not concatenated
-                    target['schema']['fields'].append(dict(field, name=name))
+                    target_['schema']['fields'].append(dict(field, name=name))
                     needed_fields.remove(name)
 
-        if len(target['schema']['primaryKey']) == 0:
-            del target['schema']['primaryKey']
+        if len(target_['schema']['primaryKey']) == 0:
+            del target_['schema']['primaryKey']
 
         # a target field that one of the concatenated resources does not provide is null in its rows
         selected = [r for r in package.pkg.descriptor['resources'] if matcher.match(r['name'])]
-        for field in target['schema']['fields']:
+        for field in target_['schema']['fields']:
             constraints = field.get('constraints')
             if isinstance(constraints, dict) and constraints.get('required'):
                 if not all(any(field_mapping.get(f['name']) == field['name']
@@ -81,7 +88,7 @@ def concatenate(fields, target={}, resources=None):
                     field['constraints'] = constraints
 
         for name in needed_fields:
-            target['schema']['fields'].append(dict(
+            target_['schema']['fields'].append(dict(
                 name=name, type='string'
             ))
 
@@ -105,12 +112,12 @@ def concatenate(fields, target={}, resources=None):
             else:
                 if not match:
                     suffix = True
-                    new_resources.append(target)
+                    new_resources.append(target_)
                     new_resources.append(resource)
                 else:
                     num_concatenated += 1
         if not suffix and num_concatenated > 0:
-            new_resources.append(target)
+            new_resources.append(target_)
 
         package.pkg.descriptor['resources'] = new_resources
         yield package.pkg
